@@ -184,7 +184,7 @@ class StubOpt(_Optimizer):
         super().__init__([torch.nn.Parameter(torch.zeros(1))], defaults={})
         self.loss, self.last = None, None
         if with_reject:
-            self.reject_count = 0
+            self.reject, self.reject_count = 16, 0     # the attributes LevenbergMarquardt exposes
 
 
 def _cmp_state(tag, ctl, ref, i, was_stopped, key_extra=""):
